@@ -244,7 +244,11 @@ NameRelShapes ==
   LET fb == Msg("FooBar", <<Fld("Str", 1, "string"), Fld("Num", 2, "int32")>>, <<>>)
       mk(id, msgs) == [Shape("c12.n." \o id, Desc(msgs), [BaseCfg EXCEPT !.types = <<"FooBar">>]) EXCEPT
                          !.root = "FooBar", !.group = "c12.n", !.gchecks = <<GCheck("fn", "C12", "C12.text_independent")>>]
-  IN <<mk("alone", <<fb>>),
+      le == Msg("LogEntry", <<Fld("Str", 1, "string"), MapOf(Fld("Tags", 2, "string"))>>, <<>>)
+      mkT(id, msgs, types, root) == [Shape("c12.n." \o id, Desc(msgs), [BaseCfg EXCEPT !.types = types]) EXCEPT
+                         !.root = root, !.run = "c12.n.entry", !.group = "c12.n.entry", !.gchecks = <<GCheck("fn", "C12", "C12.text_independent")>>]
+  IN <<mkT("entry.LogEntry", <<le, fb>>, <<"LogEntry", "FooBar">>, "LogEntry"), mkT("entry.FooBar", <<le, fb>>, <<"LogEntry", "FooBar">>, "FooBar"),
+       mk("alone", <<fb>>),
        mk("rel", <<Msg("Bar", <<Fld("Num", 1, "int32")>>, <<>>), fb, Msg("Foo", <<Fld("Flag", 1, "bool")>>, <<>>)>>)>>
 
 GenSelectShapes(long) ==
@@ -385,11 +389,16 @@ GenConfigShapes(long) == <<
   Shape("c16.notypes.cli", Desc(<<Leaf, ChanRoot>>), [BaseCfg EXCEPT !.fault = "notypes", !.channel = ChanAll("cli")]),
   Shape("c16.emptytypes", Desc(<<Leaf, ChanRoot>>), [BaseCfg EXCEPT !.fault = "emptytypes"]),
   Shape("c16.missingfile", Desc(<<Leaf, ChanRoot>>), [BaseCfg EXCEPT !.fault = "missingfile", !.channel = ChanAll("cli")]),
-  Shape("c16.malformed", Desc(<<Leaf, ChanRoot>>), [BaseCfg EXCEPT !.fault = "malformed", !.channel = ChanAll("cli")]) >>
+  Shape("c16.malformed", Desc(<<Leaf, ChanRoot>>), [BaseCfg EXCEPT !.fault = "malformed", !.channel = ChanAll("cli")]),
+  \* a file that is YAML but cannot be parsed INTO the configuration (a scalar for a list, a word for a boolean, a mapping for a list)
+  Shape("c16.mistyped.list", Desc(<<Leaf, ChanRoot>>), [BaseCfg EXCEPT !.fault = "mistypedlist"]),
+  Shape("c16.mistyped.bool", Desc(<<Leaf, ChanRoot>>), [BaseCfg EXCEPT !.fault = "mistypedbool", !.channel = ChanOne(1, "cli")]),
+  Shape("c16.mistyped.map", Desc(<<Leaf, ChanRoot>>), [BaseCfg EXCEPT !.fault = "mistypedmap"]) >>
 
 \* C14: a configuration with several entries in every map / list option; the same request again and
 \* again, and with permuted entry orders
-DetCfg == [BaseCfg EXCEPT !.types = <<"Root", "Other", "Leaf">>, !.exclude = <<"Root.Extra", "Other.Num">>,
+\* (types also names a message by a package-qualified, dotted spelling, which selects nothing)
+DetCfg == [BaseCfg EXCEPT !.types = <<"Root", "Leaf", "acme.tp.v1.Other">>, !.exclude = <<"Root.Extra", "Other.Num">>,
              \* (computed and sensitive list a message field AND a field below it: an entry never stands for another one)
              !.computed = <<"Root.Sub", "Root.Str", "Leaf.Str", "Root.Alpha", "Root.Sub.Num">>, !.required = <<"Root.Zed", "Root.Sub.Str">>,
              !.sensitive = <<"Root.Sub", "Root.Dur", "Root.Sub.Str", "Leaf.Num">>, !.durationcustom = "Duration", !.usfu = TRUE,
@@ -635,7 +644,11 @@ GenAddrMixed == <<
                             Msg("Root", <<MsgF("Sub", 1, "Leaf"), MsgF("Sub2", 2, "Leaf"), StdTime("When", 3), Fld("Num", 4, "int32"),
                                           Rep(StdTime("Whens", 5))>>, <<>>)>>),
         [BaseCfg EXCEPT !.exclude = <<"Leaf.Dur", "Root.When", "Root.Whens">>, !.timetype = FALSE, !.durationtype = FALSE,
-                        !.computed = <<"Root.Sub.Str">>]) >>
+                        !.computed = <<"Root.Sub.Str">>]),
+  \* the flag lists given as plugin PARAMETERS (both key forms), next to lists that stay in the file
+  Shape("c11.mix.7", AddrDesc, [BaseCfg EXCEPT !.required = <<"Root.Sub.Str", "Leaf.Num">>, !.computed = <<"Leaf.Str", "Root.Zed">>,
+                                               !.sensitive = <<"Root.Subs.Num">>, !.exclude = <<"Root.Sub2.Num">>,
+                                               !.channel = <<KV("required_fields", "cli"), KV("sensitive_fields", "cli"), KV("exclude_fields", "cli")>>]) >>
 
 \* the same mixed-key configurations judged for C10 (flags, validators, plan modifiers and the default plan modifier per attribute)
 MixedKeyFlagShapes == [i \in DOMAIN GenAddrMixed |-> [GenAddrMixed[i] EXCEPT !.id = "c10.mix." \o ToString(i), !.run = "c10.mix." \o ToString(i)]]
